@@ -50,7 +50,7 @@ def sets_for(d):
         if d == "OMNI":
             enc = impl.PVLEncoder(grammar=g, decoder=dec)     # the pairing pvl_validate uses
         elif d == "ISIS":
-            enc = impl.ISISEncoder()
+            enc = impl.ISISEncoder(grammar=g, decoder=dec)   # the pairing pvl_validate uses
         else:
             enc = impl.make_encoder(d)
         _SETS[d] = (g, dec, enc)
@@ -151,7 +151,17 @@ def check(d, s):
         if true_ones != [cls]:
             bad("class-predicates-not-exclusive", "class %s, predicates true for %s" % (cls, true_ones))
     elif cls == NOTVALUE:
-        if true_ones:
+        reserved = any(w.casefold() == s.casefold() for w in g.reserved_keywords)
+        if true_ones == [UNQUOTED] and reserved:
+            pass        # END, GROUP ...: word-shaped; the repository's own tests pin is_unquoted_string() True
+                        # for them, and is_parameter_name() excludes them
+        elif true_ones == [UNQUOTED] and d in ("ODL", "PDS3") and not dec.is_identifier(s):
+            # lexically an unquoted word, but ODL only lets identifiers stand unquoted as a value
+            out.append({"case": case, "diagnosis": "predicate-accepts-non-value:" + d,
+                        "detail": "%r: is_unquoted_string() is True, the %s decoder says it is not a value "
+                                  "(not an ODL identifier)" % (s, d),
+                        "sig": "predicate-accepts-non-value|%s|unquoted-word-that-is-not-an-ODL-identifier" % d})
+        elif true_ones:
             bad("predicate-accepts-non-value", "not a value, but %s" % (true_ones,))
     elif cls == KEYWORD:
         if [c for c in true_ones if c != UNQUOTED]:
@@ -201,7 +211,7 @@ def shard(spec):
         if vs:
             for v in vs:
                 acc.violation(v["case"], v["diagnosis"], v["detail"],
-                              sig="%s|%s" % (v["diagnosis"], re.sub(r"[a-z]", "a", re.sub(r"[0-9]", "9", s))[:12]))
+                              sig=v.get("sig") or "%s|%s" % (v["diagnosis"], re.sub(r"[a-z]", "a", re.sub(r"[0-9]", "9", s))[:12]))
         else:
             acc.nontrivial += 1
     acc.sample({"dialect": d, "texts": words[:3]}, cap=1)
